@@ -1,4 +1,6 @@
 import ApolloModel.Proofs.AstDocument3
+import ApolloModel.Proofs.AstText7
+import ApolloModel.Proofs.AstText8
 /-
 C08 — AST serialization round-trips.
 
@@ -85,5 +87,117 @@ example : wfSel (.field (some "a".toList) "b".toList
     [{ name := "d".toList, args := [] }]
     (.cons (.inline (some "T".toList) [] (.cons (.field none "c".toList [] [] .nil) .nil))
       (.cons (.spread "F".toList []) .nil))) = true := by decide
+
+/-! ## From tokens to text (Proofs/AstText*.lean)
+
+The theorems above speak about `toksOf`, the tokens the serializer writes.  The ones below say what the
+written TEXT is and that the lexer model reads it back to those tokens. -/
+
+/-- **No glue.** In the command list of every document (for either value of `output_empty`) no token is written
+    directly after a token it would merge with — name or number after name or number, string after string,
+    `...` after a number: between them there is a write that happens in EVERY configuration (`" "`, `","`,
+    `new_line_or_space`, `indent_or_space`, `dedent_or_space`; `indent`, `dedent` and the newline-only writes
+    do not count).  Writing `...on T`, or dropping the space in `query Q`, makes this false. -/
+theorem no_glue (oe : Bool) (doc : Document) : separated (cDocument oe doc) := separated_document oe doc
+
+/-- `separated` does reject glue: `queryQ`, `1 2` without the comma or space, `""` directly before `"x"`, `1...`;
+    and accepts `...on T` (which lexes as `...`, `on`, `T`). -/
+example : ¬ separated [kw "query", nm "Q".toList] := by unfold separated; decide
+example : ¬ separated [.tok (.int "1".toList), .indent, .tok (.int "2".toList)] := by unfold separated; decide
+example : ¬ separated [.str false [], .rawIfNewlines ['\n'], .str false "x".toList] := by unfold separated; decide
+example : ¬ separated [.tok (.int "1".toList), pn .spread] := by unfold separated; decide
+example : separated [pn .spread, kw "on", sp, nm "T".toList] := by unfold separated; decide
+
+/-- the same for the pieces printed on their own -/
+theorem no_glue_pieces (oe : Bool) (d : Definition) (sels : Sels) (v : Value) (t : Ty) :
+    separated (cDefinition oe d) ∧ separated (curly (cSels sels)) ∧ separated (cValue v) ∧ separated (cTy t) :=
+  ⟨separated_definition oe d, separated_selection_set sels, separated_value v, separated_type t⟩
+
+/-- **Segmentation of the printed text**, for every configuration and document.  The output is the initial
+    indentation followed by the texts of the segments `docSegs` (token texts: `tokText` / the string serializer;
+    ignored texts: spaces, commas, newlines, indentation); the tokens of the segments are `toksOf`; two tokens
+    that would merge are always separated by a NON-EMPTY ignored segment (`segScan` succeeds); and, when the
+    indentation prefix consists of ignored characters (spaces, tabs, commas, newlines, BOM), so does every
+    ignored segment. -/
+theorem text_segmentation (pre : Option Str) (level : Nat) (doc : Document) :
+    (serializeDocument pre level doc).out = initialIndent pre level ++ segsText (docSegs pre level doc) ∧
+    segsToks (docSegs pre level doc) = toksOf (cDocument (outputEmptyAtStart pre level) doc) ∧
+    (∃ e, segScan none (docSegs pre level doc) = some e) ∧
+    ((∀ p, pre = some p → strIgnored p = true) →
+      strIgnored (initialIndent pre level) = true ∧
+      ∀ s, Seg.ign s ∈ docSegs pre level doc → strIgnored s = true) := by
+  refine ⟨interp_out _ _, render_toks _ _, ?_, ?_⟩
+  · have hsep := separated_document (outputEmptyAtStart pre level) doc
+    unfold separated at hsep
+    cases h : scan none (cDocument (outputEmptyAtStart pre level) doc) with
+    | none => simp [h] at hsep
+    | some e =>
+      obtain ⟨e', h', _⟩ := render_separated _ (initSt pre level) none none e (.inl rfl) h
+      exact ⟨e', h'⟩
+  · intro hpre
+    exact ⟨initialIndent_ignored pre level hpre,
+      render_ignored _ _ none (prefixIgnored_init pre level hpre) (separated_document _ doc)⟩
+
+/-- names and punctuators, on their own, lex back to their token (maximal munch for names) -/
+theorem name_and_punctuator_lex_back (n : Str) (k : P) (h : wfName n = true) :
+    TokOk (.name n) n ∧ TokOk (.p k) (tokText (.p k)) := ⟨tokOk_name n h, tokOk_punct k⟩
+
+/-- **The text lexes back to the tokens.**  For every configuration whose indentation prefix is ignored text
+    and every document whose names are GraphQL names: the lexer model (Model/Lexer.lean), run on the printed
+    text, yields exactly `toksOf` — names, punctuators and all ignored text are proved; that each number and
+    each string literal, taken alone, lexes back to its token is the hypothesis `NumbersLex` / `StringsLex`
+    (vacuous for documents without numbers and strings). -/
+theorem text_lexes_back (pre : Option Str) (level : Nat) (doc : Document)
+    (hpre : ∀ p, pre = some p → strIgnored p = true)
+    (hn : NamesWf (docSegs pre level doc)) (hnum : NumbersLex (docSegs pre level doc))
+    (hstr : StringsLex (docSegs pre level doc)) :
+    sigToks (Apollo.Lex.lex none (serializeDocument pre level doc).out)
+      = some (toksOf (cDocument (outputEmptyAtStart pre level) doc)) := by
+  obtain ⟨hout, htoks, ⟨e, hscan⟩, _⟩ := text_segmentation pre level doc
+  rw [hout, ← htoks]
+  exact lex_segments _ _ none e (segsWf_doc pre level doc hpre hn hnum hstr)
+    (initialIndent_ignored pre level hpre) hscan
+
+/-- **Text round trip** (lexer + reference parser): printing, lexing and parsing give the document back. -/
+theorem document_text_roundtrip (pre : Option Str) (level : Nat) (doc : Document) (hne : doc ≠ [])
+    (hwf : wfDefinitions doc = true) (hpre : ∀ p, pre = some p → strIgnored p = true)
+    (hn : NamesWf (docSegs pre level doc)) (hnum : NumbersLex (docSegs pre level doc))
+    (hstr : StringsLex (docSegs pre level doc)) :
+    (sigToks (Apollo.Lex.lex none (serializeDocument pre level doc).out)).bind (pDocument (szDefinitions doc))
+      = some doc := by
+  rw [text_lexes_back pre level doc hpre hn hnum hstr]
+  exact document_print_parse pre level doc hne hwf
+
+/-- integer literals (`-?(0|[1-9][0-9]*)`), on their own, lex back to their token when followed by anything
+    that is neither a name character nor `.` -/
+theorem integer_lex_back (s : Str) (h : wfIntLit s = true) : TokOk (.int s) s := tokOk_int s h
+
+/-- `text_lexes_back` with the integer case discharged: what remains assumed is that float literals and
+    string literals, taken alone, lex back to their tokens. -/
+theorem text_lexes_back_ints (pre : Option Str) (level : Nat) (doc : Document)
+    (hpre : ∀ p, pre = some p → strIgnored p = true)
+    (hn : NamesWf (docSegs pre level doc)) (hint : IntsWf (docSegs pre level doc))
+    (hfl : FloatsLex (docSegs pre level doc)) (hstr : StringsLex (docSegs pre level doc)) :
+    sigToks (Apollo.Lex.lex none (serializeDocument pre level doc).out)
+      = some (toksOf (cDocument (outputEmptyAtStart pre level) doc)) :=
+  text_lexes_back pre level doc hpre hn (numbersLex_doc pre level doc hint hfl) hstr
+
+/-- the hypotheses of `text_lexes_back` are satisfiable: `query Q { a { ...F } b: c }  fragment F on T { a }`
+    printed with two-space indentation at level 1 and on a single line -/
+def exampleDoc : Document :=
+  [.operation .query (some "Q".toList) [] []
+     (.cons (.field none "a".toList [] [] (.cons (.spread "F".toList []) .nil))
+       (.cons (.field (some "b".toList) "c".toList [] [] .nil) .nil)),
+   .fragment "F".toList "T".toList [] (.cons (.field none "a".toList [] [] .nil) .nil)]
+
+example : sigToks (Apollo.Lex.lex none (serializeDocument (some "  ".toList) 1 exampleDoc).out)
+    = some (toksOf (cDocument (outputEmptyAtStart (some "  ".toList) 1) exampleDoc)) := by
+  have h := plain_hyps (docSegs (some "  ".toList) 1 exampleDoc) (by decide)
+  exact text_lexes_back _ _ _ (by intro p hp; cases hp; decide) h.1 h.2.1 h.2.2
+
+example : sigToks (Apollo.Lex.lex none (serializeDocument none 0 exampleDoc).out)
+    = some (toksOf (cDocument (outputEmptyAtStart none 0) exampleDoc)) := by
+  have h := plain_hyps (docSegs none 0 exampleDoc) (by decide)
+  exact text_lexes_back _ _ _ (by intro p hp; cases hp) h.1 h.2.1 h.2.2
 
 end Apollo.C08
